@@ -317,7 +317,13 @@ func c16File(t *rapid.T) ([]byte, bool) {
 func c16Record(path, q string) (msg string) {
 	sh := history.NewSearchHistory(path, 100)
 	_ = sh.Load() // errors ignored, as the CLI does
+	if msg := c16ViewsAgree(sh); msg != "" {
+		return "after loading the file: " + msg
+	}
 	sh.AddEntry(q, 3, "", 5*time.Millisecond)
+	if msg := c16ViewsAgree(sh); msg != "" {
+		return "after loading the file and recording a search: " + msg
+	}
 	if len(sh.Entries) == 0 || sh.Entries[len(sh.Entries)-1].Query != q {
 		return fmt.Sprintf("after recording %q the newest entry is not that search (history holds %d entries, maximum %d)", q, len(sh.Entries), sh.MaxSize)
 	}
@@ -341,7 +347,7 @@ func c16Record(path, q string) (msg string) {
 
 func TestC16_File(t *testing.T) {
 	rec := stat.For("C16")
-	rec.Rule("(B) history file bytes from a JSON-ish generator (max_size in {-5,0,1,1e9,\"x\",null,1e3,...}, entries of wrong type, bad timestamps, truncation) or raw bytes; then Load (error ignored as the CLI does), AddEntry, Save, Load. Oracle: no panic; the recorded search is the newest entry in memory, and after a successful save also on reload. Non-trivial = file is syntactically valid JSON.")
+	rec.Rule("(B) history file bytes from a JSON-ish generator (max_size in {-5,0,1,1e9,\"x\",null,1e3,...}, entries of wrong type, bad timestamps, truncation) or raw bytes; then Load (error ignored as the CLI does), AddEntry, Save, Load. Oracle: no panic; the recorded search is the newest entry in memory, and after a successful save also on reload; top / recent / statistics views agree with whatever entries were loaded (order-independent clauses). Non-trivial = file is syntactically valid JSON.")
 	rapid.Check(t, func(t *rapid.T) {
 		data, jsonish := c16File(t)
 		path := gen.TempPath(".json")
@@ -448,4 +454,49 @@ func TestC16_CLIViews(t *testing.T) {
 		}
 		rec.Case(len(log) >= 2, map[string]any{"cli_views": true, "log": log}, "cli-views")
 	})
+}
+
+// c16ViewsAgree checks the order-independent part of "the views agree with the entries" on
+// whatever entries the history holds (a hand-edited file may hold entries in any order,
+// without timestamps, with repeated neighbours): frequencies sum to the entry count, the top
+// and recent views list every distinct query exactly once, the statistics count them.
+func c16ViewsAgree(sh *history.SearchHistory) string {
+	freq := map[string]int{}
+	for _, e := range sh.Entries {
+		freq[e.Query]++
+	}
+	all := len(sh.Entries) + 10
+	sum := 0
+	seen := map[string]bool{}
+	for _, qf := range sh.GetTopQueries(all) {
+		if seen[qf.Query] {
+			return fmt.Sprintf("the top view lists %q twice", qf.Query)
+		}
+		seen[qf.Query] = true
+		if freq[qf.Query] != qf.Count {
+			return fmt.Sprintf("the top view counts %q %d times, the entries hold it %d times", qf.Query, qf.Count, freq[qf.Query])
+		}
+		sum += qf.Count
+	}
+	if sum != len(sh.Entries) || len(seen) != len(freq) {
+		return fmt.Sprintf("top-query frequencies sum to %d over %d queries, the history holds %d entries with %d distinct queries", sum, len(seen), len(sh.Entries), len(freq))
+	}
+	rq := sh.GetRecentQueries(all)
+	seenR := map[string]bool{}
+	for _, q := range rq {
+		if seenR[q] {
+			return fmt.Sprintf("the recent view lists %q twice", q)
+		}
+		seenR[q] = true
+		if freq[q] == 0 {
+			return fmt.Sprintf("the recent view lists %q, which no entry holds", q)
+		}
+	}
+	if len(rq) != len(freq) {
+		return fmt.Sprintf("the recent view lists %d queries, the entries hold %d distinct ones", len(rq), len(freq))
+	}
+	if st := sh.GetStats(); st.TotalSearches != len(sh.Entries) || st.UniqueQueries != len(freq) {
+		return fmt.Sprintf("statistics report %d searches / %d distinct queries, the entries are %d / %d", st.TotalSearches, st.UniqueQueries, len(sh.Entries), len(freq))
+	}
+	return ""
 }
